@@ -1,6 +1,6 @@
 (* Props/C03.v — pinned statements for property C03 (encoder output is well-formed, deterministic,
    shortest-form CBOR).  Nothing but statements closed by `exact`; proofs live in Proofs/. *)
-From MC Require Import Bytes Cbor Encoder Methods EncoderFacts.
+From MC Require Import Bytes Cbor Item Acc Encoder Methods Calls EncoderFacts ItemFacts MethodsWf CallsFacts.
 Local Open Scope N_scope.
 
 (* Every Encoder method that writes a whole item produces exactly the RFC 8949 preferred
@@ -19,6 +19,36 @@ Proof. exact methods_refuse. Qed.
 Theorem C03_heads : forall h, hmeth_ok h = true -> flat (run_hmeth h) = hmeth_head h.
 Proof. exact hmethods_preferred. Qed.
 
+(* … and those bytes are exactly one well-formed data item, every head in its shortest form, whose
+   data-model value is the value given. *)
+Theorem C03_wellformed : forall m cs,
+  arg_ok m = true -> run_meth m = Some cs ->
+  exists e, flat cs = ser e /\ wf e = true /\ pref e = true /\ val_of e = item_of m.
+Proof. exact methods_wellformed. Qed.
+
+(* The reference encoder itself: for every representable item its output is the serialisation of a
+   well-formed, preferred tree denoting that item. *)
+Theorem C03_reference : forall i, item_ok i = true ->
+  exists e, enc_pref i = ser e /\ wf e = true /\ pref e = true /\ val_of e = i.
+Proof. exact enc_pref_is_item. Qed.
+
+(* Balanced call sequences: the Encoder calls that render any forest of trees an encoder can express
+   (shortest heads — `short` —, valid text, arbitrary nesting of definite and indefinite containers,
+   chunked strings, tags) all succeed and write exactly the serialisation of that forest. *)
+Theorem C03_balanced : forall es,
+  Forall (fun e => wf e = true /\ short e = true /\ utf8_ok e = true) es ->
+  exists ch, run_calls (flat_map calls_of es) = Some ch /\ flat ch = flat_map ser es.
+Proof. exact calls_write_forest. Qed.
+
+Example C03_balanced_example :
+  let e := EArrayI [EMap W0 [EUInt W1 255; ETextI [(W0, [97]); (W0, [])]]; ETag W2 256 (ESimple 22)] in
+  wf e = true /\ short e = true /\ utf8_ok e = true /\
+  option_map flat (run_calls (calls_of e)) = Some (ser e).
+Proof. vm_compute. auto. Qed.
+
 Print Assumptions C03_methods.
+Print Assumptions C03_wellformed.
+Print Assumptions C03_reference.
+Print Assumptions C03_balanced.
 Print Assumptions C03_refusals.
 Print Assumptions C03_heads.
